@@ -757,7 +757,7 @@ pub fn c03(c: &mut Ctx) {
         }
     }
     // hill-climbing stress search from the worst cases seen
-    let m = n / 3;
+    let m = n;
     for _ in 0..m {
         if !cl_tt.pool.is_empty() {
             let i = c.rng.below(cl_tt.pool.len() as u64) as usize;
@@ -974,7 +974,7 @@ pub fn c04(c: &mut Ctx) {
             }
         }
     }
-    let m = n / 3;
+    let m = n;
     for _ in 0..m {
         if !cl_tt.pool.is_empty() {
             let i = c.rng.below(cl_tt.pool.len() as u64) as usize;
@@ -1242,7 +1242,7 @@ pub fn c05(c: &mut Ctx) {
             c05_exact(c, a);
         }
     }
-    let m = n / 3;
+    let m = n;
     for _ in 0..m {
         if !cl_tt.pool.is_empty() {
             let i = c.rng.below(cl_tt.pool.len() as u64) as usize;
